@@ -141,9 +141,9 @@ PROPS['C09'] = dict(
     functions=fns('C09'),
     assumptions=[A_PYVAL, A_BRIDGE, A_LIST, "min([]) / max([]) raise ValueError (CPython); comparing a non-number with < raises TypeError (a safety obligation)"],
     trusted_base=['the well-formedness predicate WF(G) of contracts/tad.py, written from the rule list of the statement'],
-    undecided_clauses=["'the batch runner turns that error into a recorded message instead of a crash' (run_games: dicts, deepcopy, try/except, f-strings) is covered by the bounded executable contract only"],
+    undecided_clauses=["'the batch runner turns that error into a recorded message instead of a crash' is a discharged postcondition of run_games (failure entries carry 'Error while solving the game: <message>'; only ValueError is caught) but against SUMMARY contracts of the StochasticGame methods (A-SUMMARY), not the concrete ones; copy.deepcopy, time.time and f-string formatting are assumed contracts"],
     level_text="From the real AST, for descriptions of any size and any Python values inside transition_list: check_next_states returns normally only if the value is a list whose EVERY element is a 2-tuple with a str action (player states) / a number (probabilistic states) and an int successor in 0..n-1, raises only ValueError, and no subscript, len or comparison can raise TypeError/IndexError (each is typed by an earlier test); check_game returns only if lengths agree, rewards are >= 0, finals are non-empty and in range, players are known (min/max of an empty list is the ValueError CPython raises); the three node constructors and Node.__init__ set every field and validate; init_states returns only if every state has a truthy, well-formed transition list, and its nodes alias the caller's lists; the prefix of solve up to the creation of the solver is reached only for a description satisfying the whole rule list and otherwise raises ValueError.",
-    level_note="Trusted: z3/cvc5, the encoder's PyVal model of dynamic typing, the rule list as written in WF(G). The typed-world solver contracts assume what this prefix establishes (A-BRIDGE). run_games is bounded only.",
+    level_note="Trusted: z3/cvc5, the encoder's PyVal model of dynamic typing, the rule list as written in WF(G). The typed-world solver contracts assume what this prefix establishes (A-BRIDGE). run_games is verified against summary contracts (A-SUMMARY).",
 )
 
 REW_LEMMAS = ['L_LastMax_range', 'L_LastMin_range', 'L_MinSel_is_min', 'L_FilterIn_first', 'L_ArgEqR_from', 'L_MinW0_lip', 'L_MinW0_nonneg', 'L_MaxS_nonneg', 'L_SumS_nonneg', 'L_BW_lip', 'L_BW_nonneg']
@@ -258,7 +258,7 @@ PROPS['C05']['undecided_clauses'] = ["optimality w.r.t. the TRUE conditioned rew
                                      "the inclusion final[s] within reach[s] follows from the proved solve-level facts (final = ArgEqR over FilterAlive(FilterLab(input, reach[s])) whose labels lie in reach[s] by the proved lemmas L_ArgEqR_from, L_FA_from, L_FL_from) but is not stated as a single discharged obligation"]
 PROPS['C10']['level_text'] += SOLVE_TXT + " The frame of the whole suffix is discharged: solve modifies only the five mutable fields of its own nodes and the fields of the Solver object it allocates; every list object that existed at entry (in particular every caller-owned inner transition list, which the nodes alias) and every field of the StochasticGame object keep their content."
 PROPS['C10']['level_note'] = "Trusted: z3/cvc5, the encoder's heap model, A-BRIDGE. 'Solving again returns identical results' = this frame + the static determinism scan; the repeated-solve sequences themselves are exercised by the bounded executable contracts."
-PROPS['C06']['undecided_clauses'] = [PROPS['C06']['undecided_clauses'][0], "Solver.__init__ (math.log/math.floor) is an assumed contract whose constants are re-computed from the real source by a static obligation; count_transitions and Node.__eq__ are not under contract"]
+PROPS['C06']['undecided_clauses'] = [PROPS['C06']['undecided_clauses'][0], "Solver.__init__ (math.log/math.floor) is an assumed contract whose constants are re-computed from the real source by a static obligation; Node.__eq__ is not under contract (it is never called by the cone)"]
 PROPS['C06']['level_text'] += SOLVE_TXT + " The only exception the suffix lets escape is the ValueError of the reachability phase, exactly when pruning is on and the reported rp[0] is 0."
 
 PROPS['C05']['undecided_clauses'] = ["optimality w.r.t. the TRUE conditioned rewards in cyclic games (C02's accuracy clause)"]
@@ -273,3 +273,20 @@ for _p in ('C01', 'C04'):
     PROPS[_p]['lemmas'] = PROPS[_p]['lemmas'] + [l for l in COND_LEMMAS if l not in PROPS[_p]['lemmas']]
     PROPS[_p]['level_text'] += (" The statement is about every solve, including one that follows a pruned solve of the same lists: the frames of the"
                                 " conditioning methods (no list object that existed before is modified) are discharged in this cone too.")
+
+PROPS['C14']['level_text'] += (" The stopping rule is proved to cover all three vectors: when the reward sweep returns, its last sweep changed neither the"
+                               " expected rewards nor either diagnostic vector by more than the threshold at any state (obligations inv-step#L1.9/10, hint-return).")
+PROPS['C09']['level_text'] += (" count_transitions, which the batch runner calls on the still unvalidated description, is proved exception-free for arbitrary"
+                               " Python values as entries of the transition list.")
+
+# ---- C13: the transition-order half of the two-run relation is mechanised at the level of the spec functions
+from .tad_spec import PERM_LEMMAS  # noqa: E402
+PROPS['C13']['lemmas'] = PROPS['C13']['lemmas'] + PERM_LEMMAS
+PROPS['C13']['level_text'] += (" Transition order: since every routine is proved equal to its spec function for EVERY list, the outcome for a reordered list is the"
+                               " spec function of the reordered list; the lemmas L_<F>_swap prove MaxS, MinS, SumS, MaxR, MinR and SumP invariant under the exchange of two"
+                               " neighbouring transitions (every reordering is a product of such exchanges), and L_ArgEqR_mem / L_FA_mem characterise membership in the"
+                               " arg-lists and in the conditioned lists without reference to positions (so the reported action SETS and the kept transition SETS agree for any reordering).")
+PROPS['C13']['undecided_clauses'] = ["C13 relates TWO runs on two presentations; a contract speaks about one run. Mechanised: each routine equals a spec function of its input list (all inputs), and the spec functions are invariant under"
+                                     " exchanging neighbouring transitions / have position-free membership (PERM_LEMMAS). NOT mechanised: that every permutation is a product of neighbour exchanges (textbook fact), the renaming of actions"
+                                     " (labels are only compared for equality: argued), and the RENUMBERING OF STATES, which changes the Gauss-Seidel sweep order and hence the iterates",
+                                     PROPS['C13']['undecided_clauses'][1]]
